@@ -411,6 +411,10 @@ func runProcChildren(scs []*procScenario) []procRun {
 }
 
 func procCaseWith(h *hctx, sc *procScenario, pre *procRun) {
+	h.guard("processor-harness", map[string]any{"kind": "processor", "scenario": sc}, func() { procCase0(h, sc, pre) })
+}
+
+func procCase0(h *hctx, sc *procScenario, pre *procRun) {
 	rp := map[string]any{"kind": "processor", "scenario": sc}
 	w, err := newProcWorld(sc)
 	if err != nil {
@@ -418,6 +422,10 @@ func procCaseWith(h *hctx, sc *procScenario, pre *procRun) {
 		return
 	}
 	total := w.k + w.c
+	if w.localIdx < 0 || w.localIdx >= total {
+		h.violate("scheduler-local-shard-index-out-of-range", fmt.Sprintf("n=%d local=%d publisher=%d: ShardIndexForPublisher = %d with %d shards", sc.N, sc.Local, sc.Pub, w.localIdx, total), rp)
+		return
+	}
 	h.res.Case(fmt.Sprintf("proc/%d/%d/%d/%s", sc.N, sc.Local, sc.Pub, stepsString(sc.Steps)), true)
 	var pr procRun
 	if pre != nil {
@@ -603,6 +611,7 @@ func procModel(h *hctx, sc *procScenario, w *procWorld, obs []stepObs, pr procRu
 	}
 	var modelEvents []string
 	afterEnd := false
+	endStep := len(sc.Steps)
 	for i, st := range sc.Steps {
 		u, sender := w.stepUnit(st)
 		sigok := false
@@ -662,6 +671,9 @@ func procModel(h *hctx, sc *procScenario, w *procWorld, obs []stepObs, pr procRu
 					modelEvents = append(modelEvents, evalModelUnit(h, us))
 				}
 			}
+			if f[3] != "none" && !afterEnd {
+				endStep = i
+			}
 			if f[3] != "none" {
 				// the subprocessor ended: Run forgets it and (unless it was a discarded first-invalid
 				// one) caches the key, in two unlocked steps; what a unit arriving in between does is
@@ -718,8 +730,20 @@ func procModel(h *hctx, sc *procScenario, w *procWorld, obs []stepObs, pr procRu
 				extraOnlyLocal = false
 			}
 		}
+		// events are drained no earlier than they happen: an extra broadcast attributed to a step up
+		// to the one that ended the subprocessor cannot be a post-finalization effect
+		extraBeforeEnd := false
+		seen := 0
+		for i := range obs {
+			for range obs[i].events {
+				seen++
+				if seen > len(modelEvents) && i <= endStep {
+					extraBeforeEnd = true
+				}
+			}
+		}
 		switch {
-		case afterEnd && extraOnlyLocal:
+		case afterEnd && extraOnlyLocal && !extraBeforeEnd:
 			// a unit of a finished message slipped through the unlocked window of Processor.finalize and
 			// started a second subprocessor (see above): tolerated when rare
 			h.res.Hit("proc:divergence-after-finalization-race")
